@@ -3,14 +3,17 @@
 package main
 
 import (
+	"runtime"
+	"runtime/debug"
+
 	rt "github.com/arnodel/golua/runtime"
 
 	"verif/engine/core"
 )
 
-func main() {
-	// Go finaliser timing is owned by the harness: the pools never reach
-	// runtime.SetFinalizer in this process.
+// installSeam: Go finaliser timing is owned by the harness: the pools never
+// reach runtime.SetFinalizer in this process.
+func installSeam() {
 	rt.VerifSetFinalizerSeam(func(obj interface{}, fin interface{}) {
 		if curMachine != nil {
 			curMachine.seam(obj, fin)
@@ -18,6 +21,10 @@ func main() {
 		}
 		seam(obj, fin)
 	})
+}
+
+func main() {
+	installSeam()
 	core.Main(&core.Check{
 		ID:    "C18",
 		Level: "model_checking",
@@ -34,6 +41,13 @@ func main() {
 			"re-marking a value inside a different isolated context than the one it was marked in (two pools own it) is excluded from part B: the statement does not say which context owns it",
 			"order is checked for finalisers (statement) and for every pool batch (Pool interface contract); release order at runtime level is not checked beyond release-after-own-finaliser",
 			"part B runs on the default pool (ClonePool); UnsafePool is covered at pool level only",
+		},
+		Init: func(tier string) {
+			// millions of tiny replays: keep the collector from cycling on a
+			// 4 MB heap with 16 threads per worker
+			// (fresh pages are very expensive on this box: a small, reused heap wins)
+			debug.SetGCPercent(100)
+			runtime.GOMAXPROCS(1)
 		},
 		Families: func(tier string) []*core.Family {
 			return append(partAFamilies(tier), partBFamilies(tier)...)
